@@ -90,7 +90,12 @@ func (r *SeedSequencer) RegenerateInvalidSeeds(ctx context.Context, n int, attem
 	for _, s := range r.seeds {
 		if s.IsInvalid() {
 			if err := s.RegenerateIndex(ctx, n, attempt, seedNumber); err != nil {
-				return err
+				if _, ok := err.(Interrupted); ok || ctx.Err() != nil {
+					return err
+				}
+				// A seed that can't be read (like a file that's gone) can't be
+				// regenerated. It stays marked as invalid and is not used.
+				Log.WithError(err).Info("Unable to regenerate one of the seeds, skipping it")
 			}
 			seedNumber += 1
 		}
